@@ -1,6 +1,7 @@
 package props
 
 import (
+	"fmt"
 	"os"
 	"strings"
 
@@ -17,6 +18,9 @@ const c14LongCases = 8
 
 func c14Long(c *core.Ctx, idx int) {
 	r := c.Rand()
+	if idx%4 == 1 {
+		c14BigTree(c, idx)
+	}
 	base := []int{32, 64, 128, 256}[idx%4]
 	p := func(n int, tail string) string { return strings.Repeat("k", n-len(tail)) + tail }
 	set := []string{p(base-1, ""), p(base, "a"), p(base, "m"), p(base, "z"), p(base+1, "mm"), p(base+1, "za")}
@@ -71,4 +75,57 @@ func c14Long(c *core.Ctx, idx int) {
 		}
 		return nil
 	})
+}
+
+// c14BigTree: tree sets of tens of thousands of elements (the set an anyOf iterator over many values, or a large result,
+// is collected in), filled in ascending, descending and scattered order, enumerated in both directions: every element
+// once, in order, and a Seek into the middle lands where the sorted slice says.
+func c14BigTree(c *core.Ctx, idx int) {
+	n := 40000 + 5000*(idx%3)
+	keys := make([]string, n)
+	for i := range keys {
+		keys[i] = fmt.Sprintf("k%07d", i)
+	}
+	for _, fill := range []string{"ascending", "descending", "scattered"} {
+		for _, forward := range []bool{true, false} {
+			ts := ast.NewTreeSet(forward)
+			for i := 0; i < n; i++ {
+				j := i
+				switch fill {
+				case "descending":
+					j = n - 1 - i
+				case "scattered":
+					j = (i * 7919) % n
+				}
+				ts.Add([]byte(keys[j]))
+			}
+			what := fmt.Sprintf("TreeSet.ToCursor over %d elements filled in %s order, forward=%v", n, fill, forward)
+			func() {
+				defer func() {
+					if rec := recover(); rec != nil {
+						c.Violationf("C14 a large tree set's cursor panics", what, "%v", rec)
+					}
+				}()
+				cur := cursorOrEmpty(ts)
+				count := 0
+				for ; cur.IsValid(); cur.Next() {
+					want := keys[count]
+					if !forward {
+						want = keys[n-1-count]
+					}
+					if string(cur.Current()) != want {
+						c.Violationf("C14 a large tree set's cursor leaves the order", what, "element %d is %q, expected %q", count, cur.Current(), want)
+						return
+					}
+					count++
+				}
+				c.Eval()
+				c.Count("big_tree_set_enumerations", 1)
+				c.Nontrivial("bigtree", fill, forward, n)
+				if count != n {
+					c.Violationf("C14 a large tree set's cursor ends early", what, "%d of %d elements", count, n)
+				}
+			}()
+		}
+	}
 }
